@@ -55,10 +55,19 @@ fn history(ctx: &mut Ctx, ke: &BigUint, ida: &[u8], idb: &[u8], klen: usize, r_a
         }
     };
     let seen = rng_seen();
-    if seen.accepted.last() != Some(r_a) || r9::from_limbs(&ra_scalar) != *r_a {
-        ctx.violation("exch_step_1a:injected-valid-rA-not-used", w());
+    // the scalar that left the generator in this call (the injected one unless a stricter generator refused it)
+    let Some(r_a_used) = seen.accepted.last().cloned() else {
+        ctx.violation("exch_step_1a:no-scalar-drawn", w());
+        return;
+    };
+    if &r_a_used != r_a {
+        ctx.class("injected_r_rejected_by_generator");
+    }
+    if r9::from_limbs(&ra_scalar) != r_a_used {
+        ctx.violation("exch_step_1a:returned-scalar!=drawn-scalar", w());
         return;
     }
+    let r_a = &r_a_used;
     let ra_ref = r9::g1_mul(r_a, &r9::exch_q(ke, idb)).unwrap();
     if r9::ref_g1(&ra_lib) != Some(ra_ref.clone()) {
         ctx.violation("exch_step_1a:R_A-differs-from-standard", json!({"case": w(), "expected": g1_hex(&ra_ref), "actual": r9::ref_g1(&ra_lib).as_ref().map(g1_hex)}));
@@ -102,6 +111,11 @@ fn history(ctx: &mut Ctx, ke: &BigUint, ida: &[u8], idb: &[u8], klen: usize, r_a
     rng_prepare(&[r_b]);
     let o = guard(|| exch_step_1b(&mk, ida, idb, &kb, &ra_seen_by_b.0, klen));
     let seen = rng_seen();
+    let r_b_used = seen.accepted.last().cloned().unwrap_or_else(|| r_b.clone());
+    if &r_b_used != r_b {
+        ctx.class("injected_r_rejected_by_generator");
+    }
+    let r_b = &r_b_used;
     let exp_b = r9::exch_responder(ke, ida, idb, &ra_b_aff, r_b, klen);
     let (rb_lib, skb) = match (o, &exp_b) {
         (Outcome::Ret(Err(_)), None) => {
@@ -123,10 +137,6 @@ fn history(ctx: &mut Ctx, ke: &BigUint, ida: &[u8], idb: &[u8], klen: usize, r_a
         }
     };
     let (rb_ref, skb_ref) = exp_b.unwrap();
-    if seen.accepted.last() != Some(r_b) {
-        ctx.violation("exch_step_1b:injected-valid-rB-not-used", w());
-        return;
-    }
     if r9::ref_g1(&rb_lib) != Some(rb_ref.clone()) {
         ctx.violation("exch_step_1b:R_B-differs-from-standard", json!({"case": w(), "expected": g1_hex(&rb_ref)}));
         return;
@@ -200,7 +210,7 @@ pub fn run(ctx: &mut Ctx) {
     for (n, ok) in r9::selftest(ctx.shard == 0) {
         ctx.selftest(&n, ok);
     }
-    ctx.require(&["annex_kat", "honest_keys_equal", "tampered_keys_differ", "responder_rejects_offcurve_RA", "initiator_rejects_offcurve_RB", "tamper=RaOther", "tamper=RbOther", "tamper=RaBitflipOnCurve", "tamper=RbNeg", "klen=1", "klen=128", "parties_have_public_master_key_only"]);
+    ctx.require(&["annex_kat", "honest_keys_equal", "tampered_keys_differ", "responder_rejects_offcurve_RA", "initiator_rejects_offcurve_RB", "tamper=RaOther", "tamper=RbOther", "tamper=RaBitflipOnCurve", "tamper=RbNeg", "klen=1", "klen=128", "parties_have_public_master_key_only", "sparse_ephemeral_scalars"]);
     let pr = r9::params();
     let mut paux = ctx.prng("aux");
     if ctx.shard == 0 {
@@ -233,8 +243,14 @@ pub fn run(ctx: &mut Ctx) {
             _ => p.range(8, 128),
         };
         ctx.class(&format!("klen={}", klen));
-        let ra = rand_scalar(&mut p, &(&pr.n - 1u32));
-        let rb = rand_scalar(&mut p, &(&pr.n - 1u32));
+        let mut ra = rand_scalar(&mut p, &(&pr.n - 1u32));
+        let mut rb = rand_scalar(&mut p, &(&pr.n - 1u32));
+        if i % 4 == 1 {
+            // ephemeral scalars with zero limbs (2^64, x*2^128 + y, ...) and very small ones
+            ctx.class("sparse_ephemeral_scalars");
+            ra = sparse_scalar(&mut p, 1 + (i / 4) % 14);
+            rb = if i % 8 == 1 { BigUint::from(1 + i % 3) } else { sparse_scalar(&mut p, 1 + (i / 8 + 5) % 14) };
+        }
         let t = tampers[((i / 2) % 8) as usize];
         // tampering verdicts need klen >= 8 to make chance collisions negligible
         let klen = if t != Tamper::None && klen < 8 { 16 } else { klen };
